@@ -75,12 +75,32 @@ UN = ["nt_is_even", "nt_is_odd", "nt_checked_neg", "nt_wrapping_neg", "nt_count_
 SH = ["nt_rotate_left", "nt_rotate_right", "nt_unsigned_shl", "nt_unsigned_shr", "nt_signed_shl", "nt_signed_shr"]
 
 
+def _degree_sweep(rng, tier):
+    """root degrees around powers of two and digit-type limits (255/256/257 ...) on the extreme values of each type"""
+    degs = [4, 5, 8, 16, 31, 32, 33, 63, 64, 65, 127, 128, 129, 255, 256, 257, 258, 259, 260, 300, 511, 512, 513, 1000, 1023, 1024, 65535, 65536]
+    for cfg in cfgs(tier):
+        w, n = wn(cfg)
+        W = w * n
+        if n > 64 or W <= 128:
+            continue
+        M = 1 << W
+        for s in "ui":
+            top = ((M >> 1) - 1) if s == "i" else (M - 1)
+            for d in degs:
+                if d > W + 1:
+                    continue
+                for x in (top, 1 << (W - 2), (1 << (W - 2)) + 1, 3 ** min(d, 200) % (top + 1)):
+                    mode = rng.choice(["dbg", "rel"])
+                    yield f"nt_nth_root {s}{cfg} {mode} {hx(x)} {d}", "degree-sweep"
+
+
 def gen(rng, tier):
+    yield from _degree_sweep(rng, tier)
     reps = 60 if tier == "thorough" else 8
     for cfg in cfgs(tier):
         w, n = wn(cfg)
         W = w * n
-        if n > 40:
+        if n > 64:
             continue
         for _ in range(reps):
             for s in "ui":
